@@ -995,6 +995,26 @@ def run_kani(crate, harness_names=None, jobs=14, extra_flags=(), timeout=3000):
     return rc, out + '\n' + err, wall, ' '.join(cmd[:12]) + ' …'
 
 
+def kani_counterexample(crate, harness, timeout=600):
+    """the verifier's own counterexample: Kani's concrete playback for one failing harness (the concrete
+    values of every kani::any() in call order, as Kani prints them)"""
+    env = dict(pipeline.ENV)
+    env['CARGO_TARGET_DIR'] = os.path.join(pipeline.TARGET, 'kani')
+    cmd = ['cargo', 'kani', '--harness', harness, '-Z', 'concrete-playback', '--concrete-playback=print', '--output-format', 'terse'] + KANI_FLAGS
+    rc, out, err, _ = pipeline.sh(cmd, cwd=crate, env=env, timeout=timeout)
+    m = re.search(r'let concrete_vals: Vec<Vec<u8>> = vec!\[(.*?)\];', out, re.S)
+    if not m:
+        return None
+    vals = []
+    for line in m.group(1).splitlines():
+        line = line.strip()
+        if line.startswith('//'):
+            vals.append({'value': line[2:].strip()})
+        elif line.startswith('vec![') and vals and 'bytes' not in vals[-1]:
+            vals[-1]['bytes'] = line.rstrip(',')
+    return vals[:40]
+
+
 def parse_kani(output):
     """terse -j output -> {harness: {status, failed_checks, covers, time}}"""
     res = {}
@@ -1113,7 +1133,8 @@ def kani_run_harnesses(out, prop, tag, decls, harnesses, extra_items='', feature
                     out.obligations -= 1
                 continue
             out.failed.append({'key': h.key, 'backend': 'kani', 'message': fc[:500], 'detail': r['text'][-4000:],
-                               'decl': h.decl.id, 'decl_obj': h.decl, 'features': ('serde', 'arbitrary')})
+                               'decl': h.decl.id, 'decl_obj': h.decl, 'features': ('serde', 'arbitrary'),
+                               'kani_harness': h.name, 'kani_crate': crate})
     # a solver timeout is undecided, never a violation; as a bounded, labelled stand-in the real code of
     # (a few of) those declarations is executed on boundary inputs and only a concrete failing input counts
     if timed_out_decls:
